@@ -408,10 +408,11 @@ def cmp(op, a, b):
             return not_(cmp('==', a, b))
         raise PyExc('TypeError', 'ordering of complex numbers')
     if isinstance(a, str) or isinstance(b, str) or a is None or b is None:
+        same_type = (isinstance(a, str) and isinstance(b, str)) or (a is None and b is None)
         if op == '==':
-            return a == b
+            return (a == b) if same_type else False          # a number never equals a string / None
         if op == '!=':
-            return a != b
+            return (a != b) if same_type else True
         raise Unsupported('ordering of non-numbers')
     if (is_sym(a) and z3.is_bool(a)) and (is_sym(b) and z3.is_bool(b)) and op in ('==', '!='):
         return simp(a == b) if op == '==' else simp(a != b)
